@@ -146,6 +146,10 @@ class Paths:
             txt = self.text(e)
             if txt in self.texts:
                 return self.texts[txt]
+            if isinstance(e, ast.Call) and self.p is not None:
+                r = self._helper_result(e, env, _depth)
+                if r is not UNKNOWN:
+                    return r
             if isinstance(e, ast.Call) and isinstance(e.func, ast.Name) and e.func.id in ("frozenset", "set", "tuple", "list") and e.func.id not in self.bound \
                     and len(e.args) == 1 and not e.keywords:
                 return V(e.args[0])  # membership / truthiness only
@@ -157,6 +161,57 @@ class Paths:
             if isinstance(e, ast.Attribute) and isinstance(e.value, ast.Name) and e.value.id == self.fn.self_name and ("." + e.attr) in env:
                 return env["." + e.attr]
             return UNKNOWN
+        return UNKNOWN
+
+    def _helper_result(self, e, env, _depth):
+        """Value (or truthiness) returned by a call to a private helper that the normaliser left in place (e.g. the later
+        operand of an `and`): the helper is explored under the same assumptions; every value it can return must agree."""
+        if getattr(self, "_nesting", 0) >= 3:
+            return UNKNOWN
+        fn, p = self.fn, self.p
+        t = callee_of(p, fn, e)
+        if t is None or t.node is fn.node or t.node.args.vararg or t.node.args.kwarg:
+            return UNKNOWN
+        if any(isinstance(x, (ast.Yield, ast.YieldFrom, ast.Lambda, ast.FunctionDef, ast.Global, ast.Nonlocal)) for s in t.node.body for x in ast.walk(s)):
+            return UNKNOWN
+        if t.node.decorator_list and any(unparse(d) not in ("staticmethod", "classmethod") for d in t.node.decorator_list):
+            return UNKNOWN
+        texts = self.texts
+        if t.cls is not None and t.kind == "method":
+            # the same object on both sides: facts about self carry over (re-spelled when the receiver is named differently)
+            if not (isinstance(e.func, ast.Attribute) and isinstance(e.func.value, ast.Name) and e.func.value.id == fn.self_name and fn.self_name):
+                return UNKNOWN
+            if t.cls is not fn.cls and (fn.cls is None or t.cls not in fn.cls.mro):
+                return UNKNOWN
+            if t.self_name != fn.self_name:
+                texts = {}
+                for k, v in self.texts.items():
+                    texts[(t.self_name + k[len(fn.self_name):]) if k.startswith(fn.self_name + ".") else k] = v
+        elif t.cls is not None:
+            texts = {}
+        init = {}
+        for prm, arg in bind_args(fn, e, t).items():
+            v = self.value(arg, env, _depth + 1)
+            if v is not UNKNOWN and not isinstance(v, list):
+                init[prm] = v
+        sub = Paths(t, texts=texts, project=p, hook=self.hook)
+        sub._nesting = getattr(self, "_nesting", 0) + 1
+        got = []
+
+        def observe(n, env2):
+            if n.kind == "return":
+                got.append(None if n.ast is None else sub.value(n.ast, env2))
+
+        reach = sub.reachable(init_env=init, observe=observe)
+        if any(m in reach and m.kind != "return" for m, _ in sub.g.exit.pred):
+            got.append(None)  # falls off the end
+        if not got:
+            return UNKNOWN
+        if all(_concrete(v) and not isinstance(v, list) and type(v) is type(got[0]) and v == got[0] for v in got):
+            return got[0]
+        ts = {truth(v) for v in got}
+        if len(ts) == 1 and None not in ts:
+            return TRUTHY if ts.pop() else FALSY
         return UNKNOWN
 
     def _hoisted(self, e, env, _depth):
@@ -226,16 +281,19 @@ class Paths:
         return None
 
     # -------------------------------------------------------------------------------------------- exploration
-    def reachable(self, avoid=None) -> set:
+    def reachable(self, avoid=None, init_env=None, observe=None) -> set:
         """CFG nodes reachable from the entry along edges that do not contradict the assumptions.
-        `avoid`: ids of nodes that do not complete normally under the assumptions (only their 'exc' edges are followed)."""
-        if self._reach is not None and not avoid:
+        `avoid`: ids of nodes that do not complete normally under the assumptions (only their 'exc' edges are followed).
+        `init_env`: values of parameters at the entry (flow-sensitive: a later re-binding replaces them).
+        `observe`: callable(node, environment) called for every visited (node, environment) state."""
+        plain = not avoid and not init_env and observe is None
+        if self._reach is not None and plain:
             return self._reach
         avoid = set(avoid or ())
         g = self.g
         seen_states = set()
         seen_nodes = set()
-        stack = [(g.entry, ())]
+        stack = [(g.entry, tuple(sorted((init_env or {}).items())))]
         steps = 0
         while stack:
             n, envt = stack.pop()
@@ -248,6 +306,8 @@ class Paths:
             if steps > 20000:  # give up on precision, never on soundness
                 return g.reachable()
             env = dict(envt)
+            if observe is not None:
+                observe(n, env)
             succ = n.succ
             if n.kind == "test" and n.ast is not None:
                 t = truth(self.value(n.ast, env))
@@ -266,7 +326,7 @@ class Paths:
             for m, lab in succ:
                 # an exception raised while the statement runs: its own binding did not happen
                 stack.append((m, envt if lab == "exc" else oe))
-        if not avoid:
+        if plain:
             self._reach = seen_nodes
         return seen_nodes
 
